@@ -650,7 +650,8 @@ def to_pivot_column(tokens):
     expr = tokens["value"][0]
     name = tokens["name"]
     if not name:
-        return expr
+        # A PARENTHESISED EXPRESSION IS A RESULT THAT ENDS BEFORE ITS CLOSING BRACKET: HAND IT OVER AS A TOKEN, NOT AS THE MATCH
+        return [expr]
     return {"name": name, "value": expr}
 
 
